@@ -133,7 +133,8 @@ def trace_step(S, run, with_store=True):
     run.problems = run.problems + S.I.problems[p0:]
     if with_store and run.raised is None and not run.problems:
         try:
-            run.store = run_store(run.trace, stage_funcs=STAGE_FUNCS, public=run.public)
+            havoc = written_allocs(run.trace) | set(run.public)
+            run.store = run_store(run.trace, stage_funcs=STAGE_FUNCS, public=run.public, havoc=havoc)
         except RaisedInAnalysed as ex:
             run.raised = ex
     return run
@@ -209,3 +210,50 @@ def sim3d_monitor_facts(S):
                 "C12.monitor|writes|%s" % ",".join(sorted(bad))))
     # the value returned is the norm of the divergence buffer the kernel wrote
     return out
+
+
+# ---------------------------------------------------------------------------- parallel execution over configurations
+def _worker(args):
+    modname, fname, repo, real_t, item, extra = args
+    import importlib
+    from ..driver import Session
+    from ..report import Report
+    from ..values import Unsupported
+    mod = importlib.import_module(modname)
+    S = Session(repo, real_t)
+    rep = Report("_", "other")
+    try:
+        getattr(mod, fname)(S, item, rep, *extra)
+    except Unsupported as ex:
+        return {"error": "%s (while analysing %r)" % (ex, item)}
+    from ..regions import Threshold
+    return {"obligations": rep.obligations, "samples": rep.samples, "files": sorted(S.I.files_read),
+            "threshold": str(Threshold.value), "stencils": sorted({(sd.module, sd.lineno) for sd in S.I.stencils})}
+
+
+def parallel_over(S, rep, modname, fname, items, extra=(), jobs=None):
+    """run  <modname>.<fname>(S', item, rep', *extra)  for every item in forked worker processes and merge the
+    obligations into rep (deterministic order).  Falls back to in-process execution for one item."""
+    import os
+    from concurrent.futures import ProcessPoolExecutor
+    import multiprocessing as mp
+    from ..values import Unsupported
+    items = list(items)
+    jobs = jobs or int(os.environ.get("VERIF_JOBS", "0") or 0) or min(16, os.cpu_count() or 1)
+    args = [(modname, fname, S.repo, S.real_t.name, it, tuple(extra)) for it in items]
+    if jobs <= 1 or len(items) <= 1:
+        results = [_worker(a) for a in args]
+    else:
+        with ProcessPoolExecutor(max_workers=min(jobs, len(items)), mp_context=mp.get_context("fork")) as ex:
+            results = list(ex.map(_worker, args))
+    stencils = set()
+    for it, r in zip(items, results):
+        if "error" in r:
+            raise Unsupported(r["error"])
+        rep.obligations.extend(r["obligations"])
+        for s in r["samples"]:
+            if len(rep.samples) < 12:
+                rep.samples.append(s)
+        S.I.files_read.update(r["files"])
+        stencils.update(tuple(x) for x in r["stencils"])
+    return stencils
